@@ -35,6 +35,30 @@ def run_docs(ctx, seed, n):
     return n, nontriv, problems
 
 
+def run_nl(ctx, seed, n):
+    """token-level newline-rule model vs the real parser (green-tree shapes / error flag)"""
+    p = mmh("C14", ["nlrule", str(seed), str(n)])
+    if p.returncode != 0:
+        return 0, set(), 0, [{"kind": "harness-crash", "stream": f"nlrule{seed}", "stderr": p.stderr[-2000:]}]
+    q = driver("C14", input=p.stdout)
+    if q.returncode != 0:
+        return 0, set(), 0, [{"kind": "driver-crash", "stream": f"nlrule{seed}", "stderr": q.stderr[-2000:]}]
+    problems, nontriv, n, both_err = [], set(), 0, 0
+    for a, b in zip(p.stdout.split("\n"), q.stdout.split("\n")):
+        if not a:
+            continue
+        n += 1
+        f, g = a.split("\t"), b.split("\t")
+        real_err, mod_err = int(f[4]) > 0, (len(g) > 1 and g[1] == "1")
+        if real_err != mod_err or (not real_err and f[3] != g[0]):
+            problems.append({"kind": "nlrule", "classes": f[1], "nlbits": f[2], "real_shape": f[3], "real_errors": int(f[4]), "model": b})
+        elif real_err:
+            both_err += 1
+        elif "1" in f[2]:
+            nontriv.add((f[1], f[2]))
+    return n, nontriv, both_err, problems
+
+
 def attribute(row, known_by_class):
     """split the failures of one text into (known: {finding id: count}, new: [fail records])"""
     fails = row.get("fails", [])
@@ -72,6 +96,7 @@ def attribute(row, known_by_class):
 def main(ctx, args):
     ctx.assumptions += [
         "the formatter's per-construct code (cst_print.rs, 2.4 kLoC) is NOT modelled: the three clauses are decided by running it, with the real parser as oracle",
+        "Model/NewlineRule.lean is a hand port of the expression core of cst_parser.rs on token classes (atoms, infix/prefix operators, calls, field access, indexing, parens, tuples, arrays); tie = green-tree shapes compared on random token sequences with random line breaks in this run (error cases: only the error flag is compared)",
         "Model/Pretty.lean is a hand port of pretty-0.12.4 render.rs (best/fitting) restricted to Nil/Append/Group/FlatAlt/Nest/Hardline/text; tie = byte-exact comparison on random documents in this run",
         "usize arithmetic of the crate modelled on Nat (no overflow/saturation at 2^64)",
         "AST equality = simple_print of the lowered expression and Debug dump of the Program, both with spans deleted",
@@ -89,6 +114,7 @@ def main(ctx, args):
     thorough = ctx.tier == "thorough"
     rows, doc_problems, other_problems = [], [], []
     doc_cases, doc_nontriv = 0, set()
+    nl_cases, nl_nontriv, nl_both_err, nl_problems = 0, set(), 0, []
     if args.replay:
         r = json.load(open(args.replay))
         if "tree" in r:
@@ -132,10 +158,13 @@ def main(ctx, args):
         jobs = [("files", ["files", REPO, str(k), str(shards), str(ctx.seed), str(nmut)]) for k in range(shards)]
         jobs += [("gen", ["gen", str(ctx.seed * 1000 + k), str(ngen)]) for k in range(shards)]
         jobs += [("docs", ctx.seed * 1000 + k, ndocs) for k in range(8)]
+        jobs += [("nlrule", ctx.seed * 1000 + k, 20000 if not thorough else 200000) for k in range(4)]
 
         def work(job):
             if job[0] == "docs":
                 return ("docs",) + run_docs(ctx, job[1], job[2])
+            if job[0] == "nlrule":
+                return ("nlrule",) + run_nl(ctx, job[1], job[2])
             p = mmh("C14", job[1])
             if p.returncode != 0:
                 return ("crash", {"kind": "harness-crash", "stream": " ".join(job[1]), "stderr": p.stderr[-2000:]})
@@ -145,6 +174,11 @@ def main(ctx, args):
                 doc_cases += res[1]
                 doc_nontriv |= res[2]
                 doc_problems += res[3]
+            elif res[0] == "nlrule":
+                nl_cases += res[1]
+                nl_nontriv |= res[2]
+                nl_both_err += res[3]
+                nl_problems += res[4]
             elif res[0] == "crash":
                 other_problems.append(res[1])
             else:
@@ -203,6 +237,15 @@ def main(ctx, args):
         ctx.violation(f"layout model and the pretty crate disagree on {len(doc_problems)} documents (smallest: width={best['width']} tree={best['tree'][:200]}); "
                       "the content-invariance theorems no longer speak about the crate in use",
                       dict(best, correspondence="Model/Pretty.lean vs pretty crate", cases=len(doc_problems)), found_input=False)
+    crashes = [p for p in nl_problems if p["kind"] != "nlrule"]
+    for pr in crashes:
+        ctx.violation(f"{pr['kind']} in stream {pr.get('stream')}", pr, found_input=False)
+    nl_dis = [p for p in nl_problems if p["kind"] == "nlrule"]
+    if nl_dis:
+        best = min(nl_dis, key=lambda d: len(d["classes"]))
+        ctx.violation(f"newline-rule model and the real parser disagree on {len(nl_dis)} token sequences (smallest: {best['classes']} breaks {best['nlbits']}); "
+                      "the newline-rule theorems no longer speak about the parser in use",
+                      dict(best, correspondence="Model/NewlineRule.lean vs cst_parser.rs", cases=len(nl_dis)), found_input=False)
     if not proved and not new_fail:
         ctx.violation("proof obligation broken: " + "; ".join(ctx._broken), {"stage": "prove", "theorems": ctx._broken,
                       "lake": getattr(ctx, "_lake_errors", "")}, found_input=False)
@@ -211,14 +254,16 @@ def main(ctx, args):
         if n or args.replay is None:
             ctx.known_finding(f"{k['id']} [{k.get('class','')}] {k['what']} (failing (text,config) pairs attributed this run: {n})")
     ctx.coverage.update({
-        "evaluations": stats["evaluations"] + doc_cases,
-        "distinct_nontrivial": len(nontrivial) + len(doc_nontriv),
+        "evaluations": stats["evaluations"] + doc_cases + nl_cases,
+        "distinct_nontrivial": len(nontrivial) + len(doc_nontriv) + len(nl_nontriv),
         "rule": "program cases: one evaluation = one (source text, width, indent) with all four checks (parse, AST, comments, fixed point); "
                 "non-trivial = the text was formatted to at least two different outputs across the 16 configurations (layout really depends on width/indent), distinct by id; "
+                "parser cases: one evaluation = one (token-class sequence, line-break placement) parsed by the real parser and the newline-rule model, non-trivial = error-free with at least one line break, distinct by (classes, breaks); "
                 "document cases: one evaluation = one (document, width) rendered by the real crate and the model; non-trivial = output contains a line break, distinct by (width, tree)",
         "samples": samples or [{"note": "replay mode"}],
-        "traces_validated_against_impl": doc_cases,
-        "model_impl_disagreements": len(doc_problems),
+        "traces_validated_against_impl": doc_cases + nl_cases,
+        "model_impl_disagreements": len(doc_problems) + len(nl_dis),
+        "parser_cases": nl_cases, "parser_cases_nontrivial": len(nl_nontriv), "parser_cases_both_report_errors": nl_both_err,
         "impl_property_failures": stats["texts_failing"],
         "impl_property_failures_outside_known_classes": len(new_fail),
         "program_texts": stats["texts"],
